@@ -13,7 +13,7 @@ from vfw.exactlp import LP, frac
 # "pickled" (pickle round trip), "optimized_first" (one optimize() before it is handed over, so that the solver holds a
 # basis), "context_churn" (a `with model:` block with knock-outs, another objective and an optimisation that is left)
 BUILD_PATHS = ["bulk", "one_by_one", "mets_first", "mets_implicit_ids", "switch_after", "switch_twice",
-               "copied", "pickled", "optimized_first", "context_churn"]
+               "copied", "pickled", "optimized_first", "context_churn", "stoich_late"]
 _OTHER = {"glpk": "glpk_exact", "glpk_exact": "glpk"}
 # additional paths for checks that do not audit the solver content row by row: "free_row_early" puts an unbounded row over
 # a variable fixed at zero into the problem after the first metabolite (the mass balances are then not the leading rows of
@@ -78,8 +78,29 @@ def build_model(spec, path: str = "bulk", set_solver: bool = True):
         var = model.problem.Variable("free_var", lb=0, ub=0)
         model.add_cons_vars([var, model.problem.Constraint(var, lb=None, ub=None, name="free_row")])
         model.add_metabolites(list(mets.values())[1:])
-    rxns = [make_reaction(r, mets) for r in spec["rxns"]]
-    if path == "one_by_one":
+    if path == "stoich_late":
+        # the reactions enter the model empty; their stoichiometry is written afterwards through add_metabolites with every
+        # documented kind of key (the model's object, its identifier, a fresh object / a copy with the same identifier), in
+        # one step or in two halves (since seeded change C04-8)
+        by_id = {m["id"]: m for m in spec["mets"]}
+        model.add_metabolites(list(mets.values()))
+        rxns = [make_reaction({**r, "mets": {}}, mets) for r in spec["rxns"]]
+        model.add_reactions(rxns)
+        for k, (r, rx) in enumerate(zip(spec["rxns"], rxns)):
+            for j, (m, c) in enumerate(r["mets"].items()):
+                def key(i):
+                    return [mets[m], m, make_metabolite(by_id[m]), mets[m].copy()][i % 4]
+                if (k + j) % 3 == 0 and c != 0:
+                    rx.add_metabolites({key(k + j): c / 2})
+                    rx.add_metabolites({key(k + j + 1): c / 2})
+                else:
+                    rx.add_metabolites({key(k + j): c})
+        rxns = []
+    else:
+        rxns = [make_reaction(r, mets) for r in spec["rxns"]]
+    if path == "stoich_late":
+        pass
+    elif path == "one_by_one":
         for rx in rxns:
             model.add_reactions([rx])
     else:
@@ -90,6 +111,14 @@ def build_model(spec, path: str = "bulk", set_solver: bool = True):
         model.add_metabolites(missing)
     if spec.get("compartments"):
         model.compartments = dict(spec["compartments"])
+    # genes that no rule uses (spec entries marked "unused"): a gene that leaves a rule stays in the model, so one
+    # reaction carries the gene for a moment and gets its rule back
+    for g in spec.get("genes", []):
+        if g.get("unused") and g["id"] not in model.genes and len(model.reactions):
+            host = model.reactions[0]
+            keep = host.gene_reaction_rule
+            host.gene_reaction_rule = g["id"]
+            host.gene_reaction_rule = keep
     for g in spec.get("genes", []):
         if g["id"] in model.genes:
             gene = model.genes.get_by_id(g["id"])
